@@ -180,6 +180,23 @@ void check_pair_string(const Vec<char> &x, const Vec<char> &y, size_t extra_n, c
     if (!f.truth(X == cy8, wantz == 0, "string == const char8_t*", xn, yn)) return;
     if (!f.truth(X != cy8, wantz != 0, "string != const char8_t*", xn, yn)) return;
     if (!f.sign(X.compare(cy8, ST::case_sensitive), wantz, "string::compare(const char8_t*,case_sensitive)", xn, yn)) return;
+    {   // the string's OWN storage as the pointer operand (x against x.c_str() / x.c_str()+k): the pointer operand still ends at its first NUL
+        const size_t xz = ref::zlen(x.data(), lx);
+        const int wself = ref::cmp(x.data(), lx, x.data(), xz);
+        if (!f.sign(X.compare(X.c_str()), wself, "x.compare(x.c_str())", xn, xn, "(own storage as the pointer operand)")) return;
+        if (!f.truth(X == X.c_str(), wself == 0, "x == x.c_str()", xn, xn, "(own storage as the pointer operand)")) return;
+        if (!f.truth(X != X.c_str(), wself != 0, "x != x.c_str()", xn, xn, "(own storage as the pointer operand)")) return;
+        if (!f.truth(X.compare_i(X.c_str()) == 0, xz == lx, "x.compare_i(x.c_str()) == 0", xn, xn, "(own storage as the pointer operand)")) return;
+        if (!f.truth(X.compare(X.c_str(), ST::case_insensitive) == 0, xz == lx, "x.compare(x.c_str(),case_insensitive) == 0", xn, xn, "(own storage as the pointer operand)")) return;
+        for (size_t n : {lx, xz, xz + 1, (size_t)-1}) {
+            if (!f.sign(X.compare_n(X.c_str(), n), ref::cmp_n(x.data(), lx, x.data(), xz, n), "x.compare_n(x.c_str(),n)", xn, xn, "(own storage as the pointer operand)")) return;
+            if (!f.truth(X.compare_ni(X.c_str(), n) == 0, ref::fold_equal_n(x.data(), lx, x.data(), xz, n), "x.compare_ni(x.c_str(),n) == 0", xn, xn, "(own storage as the pointer operand)")) return;
+        }
+        if (lx > 1) { const size_t k = 1, tz = ref::zlen(x.data() + k, lx - k);
+            if (!f.sign(X.compare(X.c_str() + k), ref::cmp(x.data(), lx, x.data() + k, tz), "x.compare(x.c_str()+1)", xn, xn, "(own storage as the pointer operand)")) return; }
+        if (!f.sign(_ST_PRIVATE::compare_cs(bx.p, lx, bx.p, lx), 0, "compare_cs(p,ls,p,ls)", xn, xn) || !f.sign(_ST_PRIVATE::compare_cs(bx.p, lx, bx.p, xz), wself, "compare_cs(p,ls,p,zlen)", xn, xn)) return;
+        if (!f.truth(_ST_PRIVATE::compare_ci(bx.p, lx, bx.p, xz) == 0, xz == lx, "compare_ci(p,ls,p,zlen) == 0", xn, xn)) return;
+    }
     {   // the C string / char8_t string on the LEFT
         const char *lp = cy.p; int v;
         if ((v = try_eq(lp, X)) >= 0 && !f.truth(v != 0, wantz == 0, "const char*(y) == string(x)", xn, yn)) return;
